@@ -15,7 +15,7 @@
   * `unlistable_dir_is_named`, `healed_has_no_faults`, `status_of_faults`: the failing path is recorded, a
     fault-free tree records nothing, and the exit status is 1 iff something was recorded;
   * `content_fault_local`: an entry whose content cannot be read differs from the readable entry only in the
-    content-derived columns (line_count, sha*, is_shebang, has_xattrs), which are empty (`blind_*`).
+    content-derived columns (line_count, sha*, is_shebang, has_xattrs, capabilities: all need the file opened), which are empty (`blind_*`).
   Not theorems: breadth-first order, the ordered/aggregated result paths on faulty trees (decided by the
   correspondence, run as uid 65534), and everything about a closed standard output — that is the behaviour of
   the OS pipe and of Rust's `LineWriter`, which the model cannot exhibit; it is decided by fault injection
@@ -223,9 +223,9 @@ theorem status_zero_or_one (n : Nat) : statusOf n = 0 ∨ statusOf n = 1 := by
 /-- the entry as seen when its content cannot be opened -/
 def blind (e : Entry) : Entry :=
   { e with lineCount := none, shebang := false, sha1 := [], sha256 := [], sha512 := [], sha3 := [],
-           text := none, hasXattrs := none, xattrs := [], unreadable := true }
+           text := none, hasXattrs := none, xattrs := [], caps := [], hasCapsXattr := none, unreadable := true }
 
-def contentFields : List Field := [.LineCount, .Sha1, .Sha256, .Sha512, .Sha3, .IsShebang, .HasXattrs]
+def contentFields : List Field := [.LineCount, .Sha1, .Sha256, .Sha512, .Sha3, .IsShebang, .HasXattrs, .Capabilities]
 
 /-- **content faults are local**: every other column of the entry is what it would be if the content
     could be read -/
